@@ -1,10 +1,15 @@
-"""C14 - see lib/srvprop.py (family table, generators) and spec/H2Server.tla, spec/H2ServerTrace.tla."""
-import srvprop
+"""C14 - server half: lib/srvprop.py + spec/H2Server.tla + spec/H2ServerTrace.tla;
+client half: lib/cliprop.py + spec/H2ClientTrace.tla."""
+import srvprop, cliprop
 
 
 def run(ctx):
     srvprop.run(ctx, 'C14')
+    cliprop.run(ctx, 'C14', id_offset=1000000)
 
 
 def replay(ctx, finding):
-    srvprop.replay(ctx, 'C14', finding)
+    if finding.get('kind') == 'cli':
+        cliprop.replay(ctx, 'C14', finding)
+    else:
+        srvprop.replay(ctx, 'C14', finding)
